@@ -100,6 +100,13 @@ package ice
 //@   ghostvar gMatched bool = false
 //@   ghostvar gReplace bool = false
 //@   site call findExternalIPs#1 assert looks-up-host-rules-for-this-interface: arg1 == CandidateTypeHost && arg3 == iface
+//@   ghostvar zoneless int = 0
+//@   ghostvar looked int = 0
+//@   site call WithZone#1 assert the-rules-are-looked-up-for-the-address-without-its-zone: arg0 == addr && arg1 == ""
+//@   site call WithZone#1 ghost zoneless := result
+//@   site call String#1 assert looks-up-the-text-of-the-zone-less-address: arg0 == zoneless
+//@   site call String#1 ghost looked := result
+//@   site call findExternalIPs#1 assert a-zoned-link-local-address-is-not-exempt-from-the-rules: arg2 == looked
 //@   site call findExternalIPs#1 ghost gErr := result3 != nil
 //@   site call findExternalIPs#1 ghost gMatched := result1
 //@   site call findExternalIPs#1 ghost gReplace := result2 == AddressRewriteReplace
